@@ -129,6 +129,19 @@ def source_changed(pkg_dir):
     return sorted(k for k in set(base) | set(cur) if base.get(k) != cur.get(k))
 
 
+def _limit_worker_memory():
+    # a tree under test may allocate without bound (state that grows from call to call): the worker must get a
+    # MemoryError - which is reported with the call - instead of the kernel's OOM killer choosing a victim, possibly
+    # the harness itself.  RLIMIT_DATA counts private anonymous memory only (heap, not file-backed memmaps).
+    import resource
+    lim = int(os.environ.get("PV_WORKER_DATA_LIMIT_GB", "4")) * 1024 ** 3
+    try:
+        soft, hard = resource.getrlimit(resource.RLIMIT_DATA)
+        resource.setrlimit(resource.RLIMIT_DATA, (lim if hard == resource.RLIM_INFINITY else min(lim, hard), hard))
+    except Exception:
+        pass
+
+
 class Scratch:
     """A private copy of /repo's *working tree* with freshly compiled extensions."""
 
@@ -203,7 +216,7 @@ class Scratch:
         try:
             p = subprocess.Popen(cmd, cwd=wd, env=env,
                                  stdout=subprocess.PIPE, stderr=subprocess.STDOUT,
-                                 start_new_session=True)
+                                 start_new_session=True, preexec_fn=_limit_worker_memory)
             try:
                 out, _ = p.communicate(timeout=timeout)
             except subprocess.TimeoutExpired:
